@@ -5,7 +5,7 @@ import ast
 
 from ..cfg import CFG, Node, iter_own
 from ..effects import access_path
-from ..loader import AnalysisError, FuncInfo, dotted, walk_own
+from ..loader import exc_expr, AnalysisError, FuncInfo, dotted, walk_own
 from .discharge import undischarged_raises
 from .common import Anchors, call_name, def_use_closure, names_in, self_attr
 from .tables import (
@@ -301,7 +301,7 @@ def rule_r2(ctx, an: Anchors) -> None:
             continue
         checks = _conflict_checks(ctx, an, f, table)
         # raise ResourceConflict statements
-        raises = [n for n in cfg.live_nodes() if n.kind == "stmt" and isinstance(n.ast, ast.Raise) and n.ast.exc is not None and "ResourceConflict" in ast.unparse(n.ast.exc)]
+        raises = [n for n in cfg.live_nodes() if n.kind == "stmt" and isinstance(n.ast, ast.Raise) and n.ast.exc is not None and "ResourceConflict" in ast.unparse(exc_expr(n.ast))]
         if not checks or not raises:
             rep.violate("C03.R2", f, f.node, f"no membership test on self.{table} that raises ResourceConflict before inserting")
             continue
